@@ -39,6 +39,7 @@ PROGRAMS = {
     'independent': ([('a', 0, {}), ('b', 0, {})], []),
     'diamond': ([('a', 0, {}), ('b', 0, {}), ('c', 0, {}), ('d', 0, {})], [('a', 'b'), ('a', 'c'), ('b', 'd'), ('c', 'd')]),
     'next-stage-consumer': ([('a', 0, {}), ('n', 1, {})], [('a', 'n')]),
+    'side-chain': ([('a', 0, {}), ('b', 0, {}), ('d', 0, {})], [('b', 'd')]),
 }
 REASONS = ['Success', 'KnownIssue', 'UnknownIssue', 'ResourceExhausted']
 
@@ -172,8 +173,9 @@ class Sched(object):
         elif kind == 'postmortem':
             self.pm_pending.remove(name)
             self.trace.append(('postmortem', name))
-            if c.state == codes.POSTMORTEM_STATE:
-                self.emit(name, 'postmortem', ({'state': codes.POSTMORTEM_STATE, 'isAlive': True}, c))
+            # the emission was produced when the task exited; it is delivered whatever the state has become since
+            # (the subscription's own filter on finishCalled decides whether the controller still acts on it)
+            self.emit(name, 'postmortem', ({'state': codes.POSTMORTEM_STATE, 'isAlive': True}, c))
         elif kind == 'finished':
             self.fin_sent.add(name)
             self.trace.append(('finished', name, c.state))
@@ -264,6 +266,17 @@ def reference(program, execs, shutdown_on, restartable, max_restarts=1):
             missing.append(name)
             state[name] = None
             continue
+        used = 0
+        pending_restart = False
+        for idx, r in enumerate(rs):
+            if r in restartable and used < max_restarts:
+                used += 1
+                pending_restart = idx == len(rs) - 1
+        if pending_restart or rs[-1] == 'Killed':
+            # the last execution would have been restarted, or was killed by the controller: the only admissible
+            # outcome is shut down (the stage is stopping for another reason)
+            state[name] = 'stopped'
+            continue
         final = rs[-1]
         if final == 'Success':
             state[name] = FIN
@@ -319,7 +332,8 @@ def make_body(program, max_actions, with_restarts):
         if not unrecoverable:
             ctx.witness('no_unrecoverable_exit')
             for n in stage0:
-                ctx.check(states[n] == want[n], 'final state is the one given by the documented rules, whatever the ordering',
+                ok = states[n] == want[n] or (want[n] == 'stopped' and states[n] == SHUT)
+                ctx.check(ok, 'final state is the one given by the documented rules, whatever the ordering',
                           (n, states[n], want[n], detail))
             stage_state = ctl._stageStates[0].state
             if n_stages == 1 and not any(states[n] == FIN and not list(g.successors(sched.comps[n].specification.reference)) for n in stage0):
@@ -333,7 +347,8 @@ def make_body(program, max_actions, with_restarts):
             ctx.check(ctl._stageStates[0].state == FAIL, 'the stage state is failed', (ctl._stageStates[0].state, detail))
             for n in stage0:
                 ctx.check(states[n] == SHUT or want[n] is None or states[n] == want[n],
-                          'every other component ends in its rule-given state or shut down', (n, states[n], want[n], detail))
+                          'every other component ends in its rule-given state or shut down (only an unrecoverable exit fails a component)',
+                          (n, states[n], want[n], detail))
         return (outcome, tuple(sorted(states.items())))
     return body
 
@@ -356,9 +371,9 @@ def main(tier, seed, only=None):
                      'kill_all_components', 'handleError', '_handleMigration', 'get_nodes_in_stage', 'workflow.StageState.state',
                      'workflow.ComponentState.finish/state/isAlive/run/restart', 'engine.Engine.restart/kill/isAlive/exitReason/'
                      'returncode/shutdown/_setExitReason', 'rx operators of every subscription (filter, observe_on on an immediate scheduler)']
-    progs = ['single', 'chain', 'fork', 'join', 'aggregate', 'independent', 'next-stage-consumer'] + ([] if quick else ['diamond'])
+    progs = ['single', 'chain', 'fork', 'join', 'aggregate', 'independent', 'next-stage-consumer', 'side-chain'] + ([] if quick else ['diamond'])
     rep.bounds = {'programs': progs, 'exit reason of every task execution': REASONS + ['Killed (after a kill request)'],
-                  'shutdownOn': 'empty or [KnownIssue]', 'restarts': 'quick: none; thorough: ResourceExhausted restartable once',
+                  'shutdownOn': 'empty or [KnownIssue]', 'restarts': 'quick: none except programs independent+restarts and chain+restarts; thorough: ResourceExhausted restartable once everywhere',
                   'logical-thread actions per run': max_actions, 'switch points': ['Controller._event_scheduler.wait', 'WaitOnStability (comp_lock held)'],
                   'max_paths': max_paths}
     rep.outside = ['real threads and preemption at arbitrary bytecodes (switch points are the two blocking calls)', 'rx timing operators',
@@ -371,6 +386,9 @@ def main(tier, seed, only=None):
                        'the DAG and the exit reasons by the documented rules')
     rep.required_witnesses = ['run_terminated', 'no_unrecoverable_exit', 'unrecoverable_exit']
     params = [{'program': pr, 'max_actions': max_actions, 'restarts': not quick, 'name': pr} for pr in progs]
+    if quick:
+        # restartable exits (ResourceExhausted, one restart) on the two smallest concurrent programs
+        params += [{'program': pr, 'max_actions': max_actions, 'restarts': True, 'name': pr + '+restarts'} for pr in ('independent', 'chain')]
     if only:
         params = [p for p in params if p['name'] in only]
     s = explore_parallel('orderings', factory, params, signature=signature, seed=seed, chunk=300, max_paths=max_paths,
